@@ -249,6 +249,12 @@ func ruleFIFO(fields ...string) func(c *Ctx) {
 			for _, st := range p.stores[f] {
 				c.inst(1)
 				top := fnName(TopLevel(st.Parent()))
+				for _, cand := range p.ownerChain(st.Parent()) {
+					if allowed[cand] != nil {
+						top = cand
+						break
+					}
+				}
 				form := queueForm(st, f)
 				pos := p.InstrPos(st)
 				what := "queue " + q[strings.LastIndex(q, ".")+1:] + " updated in FIFO form (" + top + ")"
@@ -397,6 +403,42 @@ func ruleRec(c *Ctx) {
 		key := strings.Join(names, " + ")
 		c.inst(1)
 		why, ok := recTable[key]
+		if !ok {
+			// the same cycle with extracted helpers: a listed member set is contained in this SCC and every
+			// extra member is a helper whose only static callers are members of the SCC
+			inSCC := map[string]bool{}
+			for _, n := range names {
+				inSCC[n] = true
+			}
+			for listed, w := range recTable {
+				parts := strings.Split(listed, " + ")
+				all := true
+				lm := map[string]bool{}
+				for _, x := range parts {
+					lm[x] = true
+					if !inSCC[x] {
+						all = false
+					}
+				}
+				if !all || len(parts) < 2 && len(names) > 3 {
+					continue
+				}
+				extrasOK := true
+				for _, f := range comp {
+					if lm[fnName(f)] {
+						continue
+					}
+					chain := p.ownerChain(f)
+					if len(chain) < 2 || !inSCC[chain[1]] {
+						extrasOK = false
+					}
+				}
+				if extrasOK {
+					key, why, ok = listed, w+" (with extracted helpers)", true
+					break
+				}
+			}
+		}
 		c.check(ok, key, "recursive cycle is a listed one with a checked termination guard", p.Pos(comp[0].Pos()), why, "a recursion that is not in the census: on cyclic resource graphs or repeated errors it may not terminate (stack overflow terminates the gateway)")
 	}
 	// guards of the subscription state machine cycle
@@ -405,11 +447,23 @@ func ruleRec(c *Ctx) {
 		fEQ := p.Field("server.Subscription.eventQueue")
 		pe := p.Method("server.Subscription.processEvent")
 		ok := false
-		for _, call := range callsIn(fn) {
-			if _, is := isCallTo(call, pe); is {
-				for _, st := range p.stores[fEQ] {
-					if st.Parent() == fn && isNilConst(st.Val) && dominates(st, call) {
-						ok = true
+		// the draining loop may live in unqueueEvents or in a helper it (alone) calls
+		for _, g := range p.Repo {
+			in := false
+			for _, cand := range p.ownerChain(g) {
+				if cand == fnName(fn) {
+					in = true
+				}
+			}
+			if !in {
+				continue
+			}
+			for _, call := range callsIn(g) {
+				if _, is := isCallTo(call, pe); is {
+					for _, st := range p.stores[fEQ] {
+						if st.Parent() == g && isNilConst(st.Val) && dominates(st, call) {
+							ok = true
+						}
 					}
 				}
 			}
